@@ -363,6 +363,364 @@ theorem feats_sublist {c : Cfg} (font : Font) : ∀ (l : List Info) (st : Alloc)
       simp only [List.map_cons, ht]
       exact hs.cons₂ _
 
+/-! ### collect_lookup_stages: "Sort lookups and merge duplicates" -/
+
+/-- two masks meet iff they share a bit -/
+theorem and_ne_zero_iff (x y : Nat) : x &&& y ≠ 0 ↔ ∃ k, x.testBit k = true ∧ y.testBit k = true := by
+  constructor
+  · intro h
+    obtain ⟨k, hk⟩ := Nat.exists_testBit_of_ne_zero h
+    rw [Nat.testBit_and, Bool.and_eq_true] at hk
+    exact ⟨k, hk⟩
+  · rintro ⟨k, h1, h2⟩ h0
+    have : (x &&& y).testBit k = true := by rw [Nat.testBit_and, h1, h2]; rfl
+    rw [h0, Nat.zero_testBit] at this
+    exact absurd this (by decide)
+
+/-- what the merge loop computes on a list sorted by lookup index (`j` = the entry being built, `rest` = what is
+    still to be read): one entry per index, in strictly increasing order; its mask is the UNION of the masks of all
+    entries with that index, its auto_zwnj / auto_zwj flags the conjunction; every index survives. -/
+theorem mergeLookups_spec : ∀ (rest : List LMap) (j : LMap),
+    (∀ x ∈ rest, j.index ≤ x.index) → rest.Pairwise (fun a b => a.index ≤ b.index) →
+    (mergeLookups j rest).Pairwise (fun a b => a.index < b.index) ∧
+    (∀ m ∈ mergeLookups j rest, j.index ≤ m.index) ∧
+    (∀ m ∈ mergeLookups j rest, ∀ k, m.mask.testBit k = true ↔
+        ∃ l ∈ j :: rest, l.index = m.index ∧ l.mask.testBit k = true) ∧
+    (∀ m ∈ mergeLookups j rest, (m.autoZwnj = true ↔ ∀ l ∈ j :: rest, l.index = m.index → l.autoZwnj = true) ∧
+        (m.autoZwj = true ↔ ∀ l ∈ j :: rest, l.index = m.index → l.autoZwj = true)) ∧
+    (∀ l ∈ j :: rest, ∃ m ∈ mergeLookups j rest, m.index = l.index)
+  | [], j, _, _ => by
+    refine ⟨by simp [mergeLookups], by simp [mergeLookups], ?_, ?_, ?_⟩
+    · intro m hm k
+      simp only [mergeLookups, List.mem_singleton] at hm
+      subst hm
+      simp
+    · intro m hm
+      simp only [mergeLookups, List.mem_singleton] at hm
+      subst hm
+      simp
+    · intro l hl
+      simp only [List.mem_singleton] at hl
+      subst hl
+      exact ⟨l, by simp [mergeLookups], rfl⟩
+  | i :: rest, j, hj, hp => by
+    rw [List.pairwise_cons] at hp
+    have hji : j.index ≤ i.index := hj i List.mem_cons_self
+    unfold mergeLookups
+    split
+    · -- a new index starts: `j` is final
+      rename_i hne
+      have hlt : j.index < i.index := by omega
+      obtain ⟨ih1, ih2, ih3, ih4, ih5⟩ := mergeLookups_spec rest i hp.1 hp.2
+      have hge : ∀ l ∈ i :: rest, i.index ≤ l.index := by
+        intro l hl
+        rcases List.mem_cons.1 hl with h | h
+        · subst h; exact Nat.le_refl _
+        · exact hp.1 l h
+      refine ⟨List.pairwise_cons.2 ⟨fun m hm => by have := ih2 m hm; omega, ih1⟩, ?_, ?_, ?_, ?_⟩
+      · intro m hm
+        rcases List.mem_cons.1 hm with h | h
+        · subst h; exact Nat.le_refl _
+        · have := ih2 m h; omega
+      · intro m hm k
+        rcases List.mem_cons.1 hm with h | h
+        · subst h
+          constructor
+          · intro hb; exact ⟨m, List.mem_cons_self, rfl, hb⟩
+          · rintro ⟨l, hl, hidx, hb⟩
+            rcases List.mem_cons.1 hl with h | h
+            · subst h; exact hb
+            · have := hge l h; omega
+        · have hmi := ih2 m h
+          rw [ih3 m h k]
+          constructor
+          · rintro ⟨l, hl, hidx, hb⟩; exact ⟨l, List.mem_cons_of_mem _ hl, hidx, hb⟩
+          · rintro ⟨l, hl, hidx, hb⟩
+            rcases List.mem_cons.1 hl with h' | h'
+            · subst h'; omega
+            · exact ⟨l, h', hidx, hb⟩
+      · intro m hm
+        rcases List.mem_cons.1 hm with h | h
+        · subst h
+          refine ⟨⟨fun hb l hl hidx => ?_, fun hall => hall m List.mem_cons_self rfl⟩,
+                  ⟨fun hb l hl hidx => ?_, fun hall => hall m List.mem_cons_self rfl⟩⟩
+          · rcases List.mem_cons.1 hl with h | h
+            · subst h; exact hb
+            · have := hge l h; omega
+          · rcases List.mem_cons.1 hl with h | h
+            · subst h; exact hb
+            · have := hge l h; omega
+        · have hmi := ih2 m h
+          obtain ⟨hz1, hz2⟩ := ih4 m h
+          refine ⟨hz1.trans ⟨fun hall l hl hidx => ?_, fun hall l hl hidx => hall l (List.mem_cons_of_mem _ hl) hidx⟩,
+                  hz2.trans ⟨fun hall l hl hidx => ?_, fun hall l hl hidx => hall l (List.mem_cons_of_mem _ hl) hidx⟩⟩
+          · rcases List.mem_cons.1 hl with h' | h'
+            · subst h'; omega
+            · exact hall l h' hidx
+          · rcases List.mem_cons.1 hl with h' | h'
+            · subst h'; omega
+            · exact hall l h' hidx
+      · intro l hl
+        rcases List.mem_cons.1 hl with h | h
+        · subst h; exact ⟨l, List.mem_cons_self, rfl⟩
+        · obtain ⟨m, hm, hidx⟩ := ih5 l h
+          exact ⟨m, List.mem_cons_of_mem _ hm, hidx⟩
+    · -- the same index again: merge `i` into `j`
+      rename_i heq
+      have heq : i.index = j.index := by omega
+      let j' : LMap := { j with mask := j.mask ||| i.mask, autoZwnj := j.autoZwnj && i.autoZwnj,
+                                autoZwj := j.autoZwj && i.autoZwj }
+      have hj' : ∀ x ∈ rest, j'.index ≤ x.index := fun x hx => by
+        have := hp.1 x hx
+        show j.index ≤ x.index
+        omega
+      obtain ⟨ih1, ih2, ih3, ih4, ih5⟩ := mergeLookups_spec rest j' hj' hp.2
+      refine ⟨ih1, ih2, ?_, ?_, ?_⟩
+      · intro m hm k
+        rw [ih3 m hm k]
+        constructor
+        · rintro ⟨l, hl, hidx, hb⟩
+          rcases List.mem_cons.1 hl with h | h
+          · subst h
+            have hb' : (j.mask ||| i.mask).testBit k = true := hb
+            rw [Nat.testBit_or, Bool.or_eq_true] at hb'
+            rcases hb' with hb' | hb'
+            · exact ⟨j, List.mem_cons_self, hidx, hb'⟩
+            · exact ⟨i, List.mem_cons_of_mem _ List.mem_cons_self, by rw [heq]; exact hidx, hb'⟩
+          · exact ⟨l, List.mem_cons_of_mem _ (List.mem_cons_of_mem _ h), hidx, hb⟩
+        · rintro ⟨l, hl, hidx, hb⟩
+          rcases List.mem_cons.1 hl with h | h
+          · subst h
+            refine ⟨j', List.mem_cons_self, hidx, ?_⟩
+            show (l.mask ||| i.mask).testBit k = true
+            rw [Nat.testBit_or, hb]; rfl
+          · rcases List.mem_cons.1 h with h' | h'
+            · subst h'
+              refine ⟨j', List.mem_cons_self, by rw [← hidx]; exact heq.symm, ?_⟩
+              show (j.mask ||| l.mask).testBit k = true
+              rw [Nat.testBit_or, hb, Bool.or_true]
+            · exact ⟨l, List.mem_cons_of_mem _ h', hidx, hb⟩
+      · intro m hm
+        obtain ⟨hz1, hz2⟩ := ih4 m hm
+        refine ⟨hz1.trans ⟨fun hall l hl hidx => ?_, fun hall l hl hidx => ?_⟩,
+                hz2.trans ⟨fun hall l hl hidx => ?_, fun hall l hl hidx => ?_⟩⟩
+        · rcases List.mem_cons.1 hl with h | h
+          · subst h
+            have hjj : (l.autoZwnj && i.autoZwnj) = true := hall j' List.mem_cons_self hidx
+            rw [Bool.and_eq_true] at hjj
+            exact hjj.1
+          · rcases List.mem_cons.1 h with h' | h'
+            · subst h'
+              have hjj : (j.autoZwnj && l.autoZwnj) = true := hall j' List.mem_cons_self (by
+                show j.index = m.index; omega)
+              rw [Bool.and_eq_true] at hjj
+              exact hjj.2
+            · exact hall l (List.mem_cons_of_mem _ h') hidx
+        · rcases List.mem_cons.1 hl with h | h
+          · subst h
+            show (j.autoZwnj && i.autoZwnj) = true
+            rw [Bool.and_eq_true]
+            exact ⟨hall j List.mem_cons_self hidx,
+                   hall i (List.mem_cons_of_mem _ List.mem_cons_self) (by rw [heq]; exact hidx)⟩
+          · exact hall l (List.mem_cons_of_mem _ (List.mem_cons_of_mem _ h)) hidx
+        · rcases List.mem_cons.1 hl with h | h
+          · subst h
+            have hjj : (l.autoZwj && i.autoZwj) = true := hall j' List.mem_cons_self hidx
+            rw [Bool.and_eq_true] at hjj
+            exact hjj.1
+          · rcases List.mem_cons.1 h with h' | h'
+            · subst h'
+              have hjj : (j.autoZwj && l.autoZwj) = true := hall j' List.mem_cons_self (by
+                show j.index = m.index; omega)
+              rw [Bool.and_eq_true] at hjj
+              exact hjj.2
+            · exact hall l (List.mem_cons_of_mem _ h') hidx
+        · rcases List.mem_cons.1 hl with h | h
+          · subst h
+            show (j.autoZwj && i.autoZwj) = true
+            rw [Bool.and_eq_true]
+            exact ⟨hall j List.mem_cons_self hidx,
+                   hall i (List.mem_cons_of_mem _ List.mem_cons_self) (by rw [heq]; exact hidx)⟩
+          · exact hall l (List.mem_cons_of_mem _ (List.mem_cons_of_mem _ h)) hidx
+      · intro l hl
+        rcases List.mem_cons.1 hl with h | h
+        · subst h
+          obtain ⟨m, hm, hidx⟩ := ih5 j' List.mem_cons_self
+          exact ⟨m, hm, hidx⟩
+        · rcases List.mem_cons.1 h with h' | h'
+          · subst h'
+            obtain ⟨m, hm, hidx⟩ := ih5 j' List.mem_cons_self
+            exact ⟨m, hm, by rw [hidx]; exact heq.symm⟩
+          · obtain ⟨m, hm, hidx⟩ := ih5 l (List.mem_cons_of_mem _ h')
+            exact ⟨m, hm, hidx⟩
+
+/-- "Sort lookups and merge duplicates" on an arbitrary stage tail -/
+theorem sortMergeTail_spec (tail : List LMap) :
+    (sortMergeTail tail).Pairwise (fun a b => a.index < b.index) ∧
+    (∀ m ∈ sortMergeTail tail, ∀ k, m.mask.testBit k = true ↔
+        ∃ l ∈ tail, l.index = m.index ∧ l.mask.testBit k = true) ∧
+    (∀ m ∈ sortMergeTail tail, (m.autoZwnj = true ↔ ∀ l ∈ tail, l.index = m.index → l.autoZwnj = true) ∧
+        (m.autoZwj = true ↔ ∀ l ∈ tail, l.index = m.index → l.autoZwj = true)) ∧
+    (∀ l ∈ tail, ∃ m ∈ sortMergeTail tail, m.index = l.index) := by
+  unfold sortMergeTail
+  split
+  · have hperm := List.mergeSort_perm tail (fun a b => lexLe a.key b.key)
+    have hs := List.pairwise_mergeSort (le := fun (a b : LMap) => lexLe a.key b.key)
+      (fun a b c => lexLe_trans _ _ _) (fun a b => lexLe_total _ _) tail
+    have hs' : (tail.mergeSort (fun a b => lexLe a.key b.key)).Pairwise (fun a b => a.index ≤ b.index) := by
+      refine hs.imp ?_
+      intro a b h
+      simp only [LMap.key, lexLe, Bool.or_eq_true, Bool.and_eq_true, decide_eq_true_eq, beq_iff_eq] at h
+      rcases h with h | h
+      · omega
+      · omega
+    cases hl : tail.mergeSort (fun a b => lexLe a.key b.key) with
+    | nil =>
+      have : tail = [] := by
+        have := hperm.length_eq; rw [hl] at this; exact List.length_eq_zero_iff.1 this.symm
+      subst this
+      simp
+    | cons x xs =>
+      rw [hl] at hs' hperm
+      rw [List.pairwise_cons] at hs'
+      obtain ⟨h1, _, h3, h4, h5⟩ := mergeLookups_spec xs x hs'.1 hs'.2
+      refine ⟨h1, ?_, ?_, ?_⟩
+      · intro m hm k
+        rw [h3 m hm k]
+        constructor
+        · rintro ⟨l, hl, r⟩; exact ⟨l, hperm.mem_iff.1 hl, r⟩
+        · rintro ⟨l, hl, r⟩; exact ⟨l, hperm.mem_iff.2 hl, r⟩
+      · intro m hm
+        obtain ⟨hz1, hz2⟩ := h4 m hm
+        exact ⟨hz1.trans ⟨fun h l hl => h l (hperm.mem_iff.2 hl), fun h l hl => h l (hperm.mem_iff.1 hl)⟩,
+               hz2.trans ⟨fun h l hl => h l (hperm.mem_iff.2 hl), fun h l hl => h l (hperm.mem_iff.1 hl)⟩⟩
+      · intro l hl
+        exact h5 l (hperm.mem_iff.2 hl)
+  · -- at most one lookup was added: nothing to sort or merge
+    rename_i hlen
+    match tail, hlen with
+    | [], _ => simp
+    | [x], _ =>
+      refine ⟨by simp, ?_, ?_, ?_⟩
+      · intro m hm k
+        simp only [List.mem_singleton] at hm
+        subst hm
+        simp
+      · intro m hm
+        simp only [List.mem_singleton] at hm
+        subst hm
+        simp
+      · intro l hl
+        exact ⟨l, hl, rfl⟩
+    | _ :: _ :: _, h => exact absurd (by simp) h
+
+/-- the merge loop never invents a lookup index -/
+theorem mergeLookups_index_from : ∀ (rest : List LMap) (j : LMap),
+    ∀ m ∈ mergeLookups j rest, ∃ l, l ∈ j :: rest ∧ l.index = m.index
+  | [], j => by
+    intro m hm
+    simp only [mergeLookups, List.mem_singleton] at hm
+    subst hm
+    exact ⟨m, List.mem_cons_self, rfl⟩
+  | i :: rest, j => by
+    intro m hm
+    unfold mergeLookups at hm
+    split at hm
+    · rcases List.mem_cons.1 hm with h | h
+      · subst h; exact ⟨m, List.mem_cons_self, rfl⟩
+      · obtain ⟨l, hl, hidx⟩ := mergeLookups_index_from rest i m h
+        exact ⟨l, List.mem_cons_of_mem _ hl, hidx⟩
+    · obtain ⟨l, hl, hidx⟩ := mergeLookups_index_from rest _ m hm
+      rcases List.mem_cons.1 hl with h | h
+      · subst h; exact ⟨j, List.mem_cons_self, hidx⟩
+      · exact ⟨l, List.mem_cons_of_mem _ (List.mem_cons_of_mem _ h), hidx⟩
+
+theorem sortMergeTail_index_from (tail : List LMap) :
+    ∀ m ∈ sortMergeTail tail, ∃ l, l ∈ tail ∧ l.index = m.index := by
+  intro m hm
+  unfold sortMergeTail at hm
+  split at hm
+  · have hperm := List.mergeSort_perm tail (fun a b => lexLe a.key b.key)
+    cases hl : tail.mergeSort (fun a b => lexLe a.key b.key) with
+    | nil => rw [hl] at hm; simp at hm
+    | cons x xs =>
+      rw [hl] at hm hperm
+      obtain ⟨l, hl', hidx⟩ := mergeLookups_index_from xs x m hm
+      exact ⟨l, hperm.mem_iff.1 hl', hidx⟩
+  · exact ⟨m, hm, rfl⟩
+
+/-! ### which features reference a lookup in a stage -/
+
+/-- map entry `f` references lookup `i` of table `t` in stage `stage` (through the feature record the font answered
+    with; indices past the lookup list are dropped by `add_lookups`) -/
+def FeatureRefs (font : Font) (t stage : Nat) (f : FMap) (i : Nat) : Prop :=
+  font.present t = true ∧ (if t = 0 then f.stage0 else f.stage1) = stage ∧
+  ∃ fi ls, (if t = 0 then f.index0 else f.index1) = some fi ∧ font.featureLookups t fi = some ls ∧
+    i ∈ ls ∧ i < font.lookupCount t
+
+/-- the required feature of the selected language system references lookup `i` in stage `stage` -/
+def RequiredRefs (font : Font) (t reqStage stage : Nat) (i : Nat) : Prop :=
+  font.present t = true ∧ reqStage = stage ∧
+  ∃ fi tag ls, font.required t = some (fi, tag) ∧ font.featureLookups t fi = some ls ∧
+    i ∈ ls ∧ i < font.lookupCount t
+
+theorem mem_addLookups {font : Font} {t fi mask : Nat} {zwnj zwj rnd syl : Bool} {l : LMap} :
+    l ∈ addLookups font t fi mask zwnj zwj rnd syl ↔
+      font.present t = true ∧ ∃ ls, font.featureLookups t fi = some ls ∧ l.index ∈ ls ∧
+        l.index < font.lookupCount t ∧ l = ⟨l.index, zwnj, zwj, rnd, mask, syl⟩ := by
+  unfold addLookups
+  by_cases hp : font.present t = true
+  · simp only [hp, if_true, true_and]
+    cases hf : font.featureLookups t fi with
+    | none => simp
+    | some ls =>
+      simp only [List.mem_map, List.mem_filter, decide_eq_true_eq, Option.some.injEq, exists_eq_left']
+      constructor
+      · rintro ⟨a, ⟨ha, hlt⟩, rfl⟩
+        exact ⟨ha, hlt, rfl⟩
+      · rintro ⟨ha, hlt, he⟩
+        exact ⟨l.index, ⟨ha, hlt⟩, he.symm⟩
+  · simp [hp]
+
+theorem mem_stageFeatLookups {font : Font} {t stage : Nat} {f : FMap} {l : LMap} :
+    l ∈ stageFeatLookups font t stage f ↔ FeatureRefs font t stage f l.index ∧
+      l = ⟨l.index, f.autoZwnj, f.autoZwj, f.random, f.mask, f.perSyllable⟩ := by
+  unfold stageFeatLookups FeatureRefs
+  cases hi : (if t = 0 then f.index0 else f.index1) with
+  | none => simp
+  | some fi =>
+    by_cases hs : (if t = 0 then f.stage0 else f.stage1) = stage
+    · simp only [hs, if_true, mem_addLookups, Option.some.injEq, true_and]
+      constructor
+      · rintro ⟨hp, ls, hf, hm, hlt, he⟩
+        exact ⟨⟨hp, fi, ls, rfl, hf, hm, hlt⟩, he⟩
+      · rintro ⟨⟨hp, fi', ls, hfi, hf, hm, hlt⟩, he⟩
+        subst hfi
+        exact ⟨hp, ls, hf, hm, hlt, he⟩
+    · simp [hs]
+
+theorem mem_stageReqLookups {c : Cfg} {font : Font} {t reqStage stage : Nat} {l : LMap} :
+    l ∈ stageReqLookups c font t reqStage stage ↔ RequiredRefs font t reqStage stage l.index ∧
+      l = ⟨l.index, true, true, false, c.globalBit, false⟩ := by
+  unfold stageReqLookups RequiredRefs
+  by_cases hp : font.present t = true
+  · simp only [hp, if_true, true_and]
+    cases hr : font.required t with
+    | none => simp
+    | some p =>
+      obtain ⟨fi, tag⟩ := p
+      by_cases hs : reqStage = stage
+      · simp only [hs, if_true, mem_addLookups, hp, true_and, Option.some.injEq, Prod.mk.injEq]
+        constructor
+        · rintro ⟨ls, hf, hm, hlt, he⟩
+          exact ⟨⟨fi, tag, ls, ⟨rfl, rfl⟩, hf, hm, hlt⟩, he⟩
+        · rintro ⟨⟨fi', tag', ls, ⟨h1, h2⟩, hf, hm, hlt⟩, he⟩
+          subst h1
+          exact ⟨ls, hf, hm, hlt, he⟩
+      · simp [hs]
+  · have : font.present t = false := by simpa using hp
+    simp [this]
+
 /-! ### reading a feature value back out of a glyph mask -/
 
 theorem recover_value (s b v : Nat) (g : Glyph) (hb : s + b ≤ 32) :
@@ -414,5 +772,23 @@ theorem trailingZeros_maskRange (s b : Nat) (hb : 1 ≤ b) (h : s + b ≤ 32) : 
   rw [Nat.mod_eq_of_lt hM]
   simp only [hne, if_false]
   exact trailingZeros_go b hb s 32 (by omega)
+
+/-- `trailing_zeros` finds the lowest set bit, whatever lies above it -/
+theorem trailingZeros_go_lowest : ∀ (s fuel m : Nat), s < fuel → (∀ k, k < s → m.testBit k = false) → m.testBit s = true →
+    trailingZeros.go fuel m = s
+  | 0, fuel + 1, m, _, _, hs => by
+    rw [Nat.testBit_zero] at hs
+    simp only [decide_eq_true_eq] at hs
+    simp [trailingZeros.go, hs]
+  | s + 1, fuel + 1, m, h, hlow, hs => by
+    have h0 := hlow 0 (by omega)
+    rw [Nat.testBit_zero] at h0
+    simp only [decide_eq_false_iff_not] at h0
+    rw [trailingZeros.go]
+    simp only [h0, if_false]
+    rw [trailingZeros_go_lowest s fuel (m / 2) (by omega)
+      (fun k hk => by have := hlow (k + 1) (by omega); rwa [Nat.testBit_succ] at this)
+      (by rwa [Nat.testBit_succ] at hs)]
+    omega
 
 end RbModel.Map
